@@ -7,7 +7,9 @@ stay pinned by design).  Workloads: the C06 scenarios (scans, index scans, inser
 pages, relocating updates, deletes on single- and multi-page tables), the C11 join scenarios (hash,
 index and nested-loop joins), rolled-back transactions (C03 scenarios on skip-list tables), and
 statements that fail; all in fixed pools so that a one-frame leak per statement also shows as pool
-exhaustion (a panicking statement is C14.fail)."""
+exhaustion (a panicking statement is C14.fail).  Concurrent windows: 8 goroutines insert rows with 1 100-byte strings
+into a table with a skip list index on the string (three entries per node), so that inserters meet on full nodes and
+validations fail; one event per window with the pinned pages before and after."""
 import os, collections
 import vlib
 from vlib import Inconclusive
@@ -38,7 +40,7 @@ def check(ctx):
         for e in vlib.read_ndjson(tr):
             if "pb" in e and e["pb"] != e["pa"] and e["ev"] != "Create" and {p[0] for p in e["pb"]} == {p[0] for p in e["pa"]}:
                 growth += 1
-    for k in ("Insert", "Select", "Update", "Delete", "Join", "Abort"):
+    for k in ("Insert", "Select", "Update", "Delete", "Join", "Abort", "Window"):
         if total[k] == 0:
             raise Inconclusive("vacuous: no %s events" % k)
     algos = {a: sum(n for p, n in plans.items() if a in p) for a in ("HashJoin", "IndexJoin", "NestedLoopJoin", "RangeScanWithIndex", "SeqScan")}
